@@ -5,14 +5,14 @@
 //@ assumes: oracle is serde_json::Value built from the same Rust number (serde_json is the reference implementation of "standard JSON" here)
 //@ decides: C26: for ALL i64/u64/f64 (and the narrower integer widths) the interpreter's JSON value converts from / compares with Rust numbers exactly as serde_json::Value does, including i64::MIN, u64::MAX, negative zero, NaN and infinities (which become null); conversion from serde_json::Value preserves scalars
 //@ outside: printing and parsing of text (itoa/ryu/serde_json reader), strings, nested arrays/objects beyond the shapes in val_structure
-//@ harness: name=c26_integers_agree_with_serde_json props=C26 cap=600 cost=20 sym="n: any i64, m: any i64, u: any u64, v: any u64" bound="none (loop-free)"
-//@ harness: name=c26_narrow_integers props=C26 cap=600 cost=20 sym="any i8,i16,i32,u8,u16,u32" bound="none"
-//@ harness: name=c26_f64_null_iff_not_finite props=C26 cap=900 cost=60 sym="x: any f64 (all bit patterns)" bound="none"
-//@ harness: name=c26_f64_equality props=C26 cap=900 cost=60 sym="x, y: any f64" bound="none"
-//@ harness: name=c26_f32_values props=C26 cap=900 cost=60 sym="f: any f32" bound="none"
-//@ harness: name=c26_integer_vs_float props=C26 tier=thorough core=0 cap=1800 cost=300 sym="n: any i64; y: any f64" bound="none"
-//@ harness: name=c26_scalars_from_serde_json props=C26 cap=600 cost=30 sym="any i64, u64, bool" bound="none"
-//@ harness: name=c26_numeric_vacuity props=C26 expect=fail cap=600 cost=20 sym="as integers" bound="none"
+//@ harness: name=c26_integers_agree_with_serde_json playback=1 props=C26 cap=600 cost=20 sym="n: any i64, m: any i64, u: any u64, v: any u64" bound="none (loop-free)"
+//@ harness: name=c26_narrow_integers playback=1 props=C26 cap=600 cost=20 sym="any i8,i16,i32,u8,u16,u32" bound="none"
+//@ harness: name=c26_f64_null_iff_not_finite playback=1 props=C26 cap=900 cost=60 sym="x: any f64 (all bit patterns)" bound="none"
+//@ harness: name=c26_f64_equality playback=1 props=C26 cap=900 cost=60 sym="x, y: any f64" bound="none"
+//@ harness: name=c26_f32_values playback=1 props=C26 cap=900 cost=60 sym="f: any f32" bound="none"
+//@ harness: name=c26_integer_vs_float playback=1 props=C26 tier=thorough core=0 cap=1800 cost=300 sym="n: any i64; y: any f64" bound="none"
+//@ harness: name=c26_scalars_from_serde_json playback=1 props=C26 cap=600 cost=30 sym="any i64, u64, bool" bound="none"
+//@ harness: name=c26_numeric_vacuity playback=1 props=C26 expect=fail cap=600 cost=20 sym="as integers" bound="none"
 
 use super::*;
 use serde_json::Value;
